@@ -156,7 +156,7 @@ pub fn execute_here(prop: &Property, sc: &Scenario, ch: Choices, keep_trace: boo
     w.sig_mix(crate::choice::fnv1a(sc.name.as_bytes()));
     LAST_PANIC.with(|p| *p.borrow_mut() = None);
     IN_RUN.with(|f| f.set(true));
-    let res = catch_unwind(AssertUnwindSafe(|| (sc.run)(&w)));
+    let res = crate::capped::scoped(|| catch_unwind(AssertUnwindSafe(|| (sc.run)(&w))));
     IN_RUN.with(|f| f.set(false));
     let mut harness_bug = None;
     let verdict = match res {
